@@ -122,8 +122,13 @@ class Position
 
     HashKey _zobrist_hash;
 
+    // keys of the positions of the game so far: a ring buffer holding the last
+    // MAX_PLIES of them, _history_counter counts all of them
     int32_t _history_counter;
     uint64_t _history[MAX_PLIES];
+
+    // the oldest entry a repetition of the current position can be found in
+    int first_history_index() const;
 };
 
 std::ostream& operator<<(std::ostream& stream, const Position& position);
